@@ -577,6 +577,7 @@ def oracle_c20(world):
             if len(cf) > 1 or (len(cf) == 0 and not raced):
                 V('dispose_did_not_cancel', 'interaction %d: disposing the result observable produced %d CANCEL frames' % (iid, len(cf)),
                   cancel['seq'], **facts)
+        # (per-interaction rules end below; the order rule follows the loop)
         # nothing is asked for on a stream after its CANCEL has been queued
         cq = next((e for e in hb if e['k'] == 'enq' and e['ep'] == 'client' and e['f']['sid'] == sid and e['f']['type'] == 'CANCEL'), None)
         if cq is not None:
@@ -585,6 +586,22 @@ def oracle_c20(world):
             if late_n:
                 V('credit_after_cancel', 'interaction %d: REQUEST_N(%d) queued after the CANCEL of the same stream'
                   % (iid, late_n[0]['f'].get('n', -1)), late_n[0]['seq'], limit=ia.get('limit'), **facts)
+    # the delegate sees the requests in the order in which they arrived (the core receiver handles one frame after the other)
+    if not core_server:
+        arrived = []
+        for e in hb:
+            if e['k'] == 'reasm' and e['ep'] == 'server' and e['f']['type'] in ('REQUEST_RESPONSE', 'REQUEST_STREAM', 'REQUEST_CHANNEL', 'REQUEST_FNF'):
+                t = app._TAG_RE.match(bytes((e['f'].get('data') or b'')[:app.TAG_LEN]))
+                if t:
+                    arrived.append(int(t.group(1)))
+        called = [e['iid'] for e in hb if e['k'] == 'hnd' and e['ep'] == 'server' and e.get('iid') is not None
+                  and e['method'] in ('request_response', 'request_stream', 'request_channel', 'request_fire_and_forget')]
+        common = [i for i in arrived if i in called]
+        if [i for i in called if i in common] != common:
+            kinds = {ia['id']: ia['kind'] for ia in plan['interactions']}
+            first = next(i for a, i in zip([i for i in called if i in common], common) if a != i)
+            V('delegate_order', 'the delegate handler was called in another order (%s) than the requests arrived (%s)'
+              % ([i for i in called if i in common][:8], common[:8]), None, kind=kinds.get(first), version=ver, framing=plan.get('framing', 'tcp'))
     return out
 
 
